@@ -1,5 +1,6 @@
 import PgVerif.Proofs.LRSound
 import PgVerif.Spec.LexRules
+import PgVerif.Proofs.LexRules
 /-!
 # C07 — token choice follows the documented lexical disambiguation order
 
@@ -10,9 +11,17 @@ recognizer behaviour, state and position:
 * disambiguation returns a sublist of what was recognized (`C07_disamb_sublist`),
   every returned token is a longest one (`C07_disamb_longest`), and if it returns
   a preferred token it returns only preferred ones (`C07_disamb_prefer`).
-That the scanner's shortcuts (candidate order, finish flags, early exit on
-priority drop) select exactly the order-free rule set R1–R5 of
-`Spec/LexRules.lean` is compared on the explored terminal sets (see DESIGN.md).
+* the scanner's shortcuts never change the outcome: for every state whose expected
+  list is sorted as `sort_state_actions` sorts it and carries finish flags as
+  `calc_finish_flags` computes them (both are decidable conditions, evaluated on
+  every table the implementation builds), `_next_tokens` returns exactly the
+  order-free rule set R1–R5 of `Spec/LexRules.lean` applied to the candidates
+  (`C07_next_tokens_eq_rules`), and with lexical disambiguation off exactly the
+  candidates of the highest matching priority (`C07_next_tokens_nolex`). The one
+  input-dependent side condition (`strDecB`: two expected string-like terminals
+  of equal priority never match the same position with the same length) is
+  evaluated per position; where it fails the documented rules leave a tie that
+  the implementation breaks by order, and the comparison reports it.
 -/
 namespace Pg
 
@@ -122,6 +131,134 @@ theorem C07_scan_only_expected (p : Nat) :
         · exact Or.inl h1
         · exact Or.inr (by simp [h1])
 
+theorem recognize_sub_cands (p : Nat) :
+    ∀ (l : List (Nat × Bool)) (last : Nat) (acc : List Tok),
+      ∀ t ∈ recognize T inp p l last acc, t ∈ acc ∨ t ∈ cands inp p l := by
+  intro l
+  induction l with
+  | nil => intro last acc t ht; simp only [recognize, List.mem_reverse] at ht; exact Or.inl ht
+  | cons x rest ih =>
+    intro last acc t ht
+    obtain ⟨a, fin⟩ := x
+    simp only [recognize] at ht
+    split at ht
+    · simp only [List.mem_reverse] at ht; exact Or.inl ht
+    · cases hm : inp.matchAt a p with
+      | none =>
+        rw [hm] at ht
+        have hc : cands inp p ((a, fin) :: rest) = cands inp p rest := by
+          simp [cands, List.filterMap, candOf, hm]
+        rw [hc]
+        exact ih _ _ t ht
+      | some len =>
+        rw [hm] at ht
+        have hc : cands inp p ((a, fin) :: rest) = ⟨a, p, len⟩ :: cands inp p rest := by
+          simp [cands, List.filterMap, candOf, hm]
+        rw [hc]
+        simp only at ht
+        split at ht
+        · simp only [List.mem_reverse, List.mem_cons] at ht
+          rcases ht with rfl | ht
+          · exact Or.inr (by simp)
+          · exact Or.inl ht
+        · rcases ih _ _ t ht with h1 | h1
+          · simp only [List.mem_cons] at h1
+            rcases h1 with rfl | h1
+            · exact Or.inr (by simp)
+            · exact Or.inl h1
+          · exact Or.inr (by simp [h1])
+
+theorem scanSpec_ne_nil (strLike : Nat → Bool) (p : Nat) :
+    ∀ l : List (Nat × Bool), cands inp p l ≠ [] → scanSpec T inp strLike p l ≠ [] := by
+  intro l
+  induction l with
+  | nil => intro h; exact absurd rfl h
+  | cons x rest ih =>
+    intro h
+    simp only [scanSpec]
+    cases hm : inp.matchAt x.1 p with
+    | none =>
+      have hc : cands inp p (x :: rest) = cands inp p rest := by
+        simp [cands, List.filterMap, candOf, hm]
+      rw [hc] at h
+      exact ih h
+    | some len =>
+      simp only [groupScan, ne_eq, not_true_eq_false, if_false, hm]
+      split <;> simp
+
+theorem cands_expected (s p : Nat) (hlen : (T.finish s).length = (T.cells s).length) :
+    cands inp p (T.expected s) = candidates T inp s p := by
+  unfold cands candidates Table.expected
+  have hmap : ((T.cells s).map (fun c => c.1)) = (((T.cells s).map (fun c => c.1)).zip (T.finish s)).map (·.1) := by
+    rw [List.map_fst_zip]
+    simp [hlen]
+  conv => rhs; rw [hmap]
+  rw [List.filterMap_map]
+  rfl
+
+/-- **The scanner's shortcuts never change the outcome** (lexical disambiguation
+on): `_next_tokens` is R1–R5 on the candidates; STOP is returned only when it is
+expected, admissible and nothing else matches. -/
+theorem C07_next_tokens_eq_rules (strLike : Nat → Bool) (consume : Bool) (s p : Nat) (hp : p < inp.len)
+    (hlen : (T.finish s).length = (T.cells s).length)
+    (hs : lexSortedB T strLike (T.expected s) = true)
+    (hf : flagsOKB T strLike (T.expected s) = true)
+    (hd : strDecB T inp strLike p (T.expected s) = true) :
+    nextTokens T inp consume true s p =
+      if ((T.cells s).any (fun c => c.1 == STOP) && (!consume || p == inp.len)) = true
+          ∧ candidates T inp s p = []
+      then [⟨STOP, p, 0⟩] else lexRules T strLike (candidates T inp s p) := by
+  have hS := lexSortedB_sound T strLike _ hs
+  have hF := flagsOKB_sound T strLike _ hf
+  have hD := strDecB_sound T inp strLike p _ hd
+  have hmain := scan_eq_rules T inp strLike p (T.expected s) 0 hS hF hD
+  rw [cands_expected s p hlen] at hmain
+  have hspec := recognize_eq_scanSpec T inp strLike p (T.expected s) 0 hS hF
+  unfold nextTokens
+  simp only [hp, if_true]
+  by_cases hstop : ((T.cells s).any (fun c => c.1 == STOP) && (!consume || p == inp.len)) = true
+  · simp only [hstop, if_true, true_and, List.cons_append, List.nil_append]
+    by_cases hc : candidates T inp s p = []
+    · rw [if_pos hc]
+      have : recognize T inp p (T.expected s) 0 [] = [] := by
+        apply List.eq_nil_iff_forall_not_mem.mpr
+        intro t ht
+        rcases recognize_sub_cands p _ _ _ t ht with h | h
+        · simp at h
+        · rw [cands_expected s p hlen, hc] at h; simp at h
+      rw [this]; rfl
+    · rw [if_neg hc]
+      have hne : recognize T inp p (T.expected s) 0 [] ≠ [] := by
+        rw [hspec]
+        exact scanSpec_ne_nil strLike p _ (by rw [cands_expected s p hlen]; exact hc)
+      have hpos : ∀ u ∈ recognize T inp p (T.expected s) 0 [], 0 < u.len := by
+        intro u hu
+        rcases recognize_sub_cands p _ _ _ u hu with h | h
+        · simp at h
+        · exact cands_pos inp p u h
+      rw [lexDisamb_eq_rule45, rule45_stop T _ hne hpos p, ← lexDisamb_eq_rule45]
+      exact hmain
+  · have hstop' : ((T.cells s).any (fun c => c.1 == STOP) && (!consume || p == inp.len)) = false := by
+      cases h : ((T.cells s).any (fun c => c.1 == STOP) && (!consume || p == inp.len)) <;> simp_all
+    simp only [hstop', Bool.false_eq_true, if_false, false_and, List.nil_append]
+    exact hmain
+
+/-- Lexical disambiguation off (the GLR default): every matching expected terminal
+of the highest matching priority, next to STOP where that is admissible. -/
+theorem C07_next_tokens_nolex (strLike : Nat → Bool) (consume : Bool) (s p : Nat) (hp : p < inp.len)
+    (hlen : (T.finish s).length = (T.cells s).length)
+    (hs : lexSortedB T strLike (T.expected s) = true)
+    (hf : ∀ x ∈ T.expected s, x.2 = false) :
+    nextTokens T inp consume false s p =
+      (if ((T.cells s).any (fun c => c.1 == STOP) && (!consume || p == inp.len)) = true
+       then [⟨STOP, p, 0⟩] else []) ++ topPriority T (candidates T inp s p) := by
+  have hS := lexSortedB_sound T strLike _ hs
+  have hmain := scan_nolex_eq_top T inp strLike p (T.expected s) 0 hS hf
+  rw [cands_expected s p hlen] at hmain
+  unfold nextTokens
+  simp only [hp, if_true, Bool.false_eq_true, if_false]
+  rw [hmain]
+
 def exLexT : Table where
   n := 1
   sym := fun _ => .nt 0
@@ -133,5 +270,13 @@ def exLexT : Table where
 
 /-- Non-vacuity: longest match between a 1- and two 2-character tokens, then prefer. -/
 example : lexDisamb exLexT [⟨1, 0, 1⟩, ⟨2, 0, 2⟩, ⟨3, 0, 2⟩] = [⟨2, 0, 2⟩] := by decide
+
+/-- Non-vacuity of the hypotheses of `C07_next_tokens_eq_rules`: a keyword (string-like,
+finish flag set) before two regex-like terminals of the same priority and one of lower
+priority. -/
+example : lexSortedB { exLexT with prior := fun t => if t == 4 then 5 else 10 } (fun t => t == 1)
+      [(1, true), (2, false), (3, true), (4, false)] = true ∧
+    flagsOKB { exLexT with prior := fun t => if t == 4 then 5 else 10 } (fun t => t == 1)
+      [(1, true), (2, false), (3, true), (4, false)] = true := by decide
 
 end Pg
